@@ -64,7 +64,7 @@ pub fn other_scenarios() -> Vec<Scenario> {
                 v.push(one(&format!("xattr-{}-{}-{}", i, if ow { "over" } else { "fresh" }, d), src, if ow { Some(prior()) } else { None }, d, &[]));
             }
         }
-        for (u, g) in [(0u32, 0u32), (1000, 1000), (1000, 0), (65534, 65534)] {
+        for (u, g) in [(0u32, 0u32), (0, 1000), (0, 4242), (1000, 0), (1000, 1000), (1000, 4242), (4242, 0), (4242, 1000), (4242, 4242), (65534, 65534)] {
             for m in [0o644u32, 0o4755, 0o2755, 0o6755, 0o1777] {
                 for ow in [false, true] {
                     let src = Entry::file("f", "0123456789ab").mode(m).owner(u, g);
